@@ -40,6 +40,10 @@ func MakeBool(a Object) (Object, error) {
 			return nil, err
 		}
 		if res != NotImplemented {
+			// the conditional jumps of the VM assert the result to be a Bool
+			if _, ok := res.(Bool); !ok {
+				return nil, ExceptionNewf(TypeError, "__bool__ should return bool, returned %s", res.Type().Name)
+			}
 			return res, nil
 		}
 	}
